@@ -5,16 +5,19 @@
 -/
 import Tranp.Lemmas.CacheFSInst
 import Tranp.Lemmas.JsonText
+import Tranp.Generated.LarkCache
+import Tranp.Generated.CacheKeys
 
 namespace Tranp.C05
 open Tranp Tranp.CacheFS
 
 /-! ### C05.tree_key — the syntax-tree cache -/
 
-/-- Along every history of edits (fresh mtime per edit), grammar changes (fresh grammar mtime), runs, cache deletions, truncations and enable/disable
-    switches that
+/-- Along every history of edits (fresh mtime per edit), grammar changes (fresh grammar mtime), changes of `ParserSetting`
+    (grammar path / start / algorithm, mtimes untouched), runs, cache deletions, truncations and enable/disable switches that
     starts from an empty project and cache, every tree a run obtains — from the cache or not — is the fresh parse of the
-    module's current source with the parser of the current setting: identity (grammar mtime, source mtime) determines both. -/
+    module's current source with the parser of the current setting: the identity (grammar path, start, algorithm, grammar mtime,
+    source mtime — since 9dfb5b4) determines both. -/
 theorem tree_key (S : Sem) (H : Hyp S) (w0 : World) (hc : w0.cache = []) (hs : w0.srcs = []) (hg : w0.grammarMtime < w0.clock)
     (hist : List Op) (hok : ∀ op ∈ hist, OpOK op) (force : Bool) (k t : Str) (hkt : (k, t) ∈ (run S (exec S w0 hist) force).trees) :
     ∃ sf, (exec S w0 hist).srcs.get? k = some sf ∧ t = S.parse ((exec S w0 hist).parserNow S) sf.data :=
@@ -39,8 +42,33 @@ theorem tree_key_warm_cold (S : Sem) (H : Hyp S) (w0 : World) (hc : w0.cache = [
 /-- non-vacuity: a real history satisfies the hypotheses, and the second run takes `b`'s tree from the cache -/
 example : Hyp cxSem ∧ (∀ op ∈ cxHist, OpOK op) ∧
     ((run cxSem (exec cxSem cxWorld cxHist) true).trees.length = 3 ∧
-     (run cxSem (exec cxSem cxWorld cxHist) true).log.contains ('r', treePath cxSem ['b'] 0 2)) = true ∧ cxWorld.grammarMtime < cxWorld.clock :=
+     (run cxSem (exec cxSem cxWorld cxHist) true).log.contains ('r', treePath cxSem ['b'] [] [] [] 0 2)) = true ∧ cxWorld.grammarMtime < cxWorld.clock :=
   ⟨cxSem_hyp, cxHist_ok, by decide +kernel, by decide⟩
+
+/-- The same statement spelled out for histories that change `ParserSetting` without touching the grammar mtime (another
+    grammar file with the same mtime, another start rule or algorithm) — `OpOK` admits `Op.setting` since the tree identity
+    covers the setting (9dfb5b4); before, this statement was refuted (`tree-key-ignores-grammar-path`). -/
+def tree_key_setting_statement : Prop :=
+  ∀ (S : Sem), Hyp S → ∀ (w0 : World), w0.cache = [] → w0.srcs = [] → w0.grammarMtime < w0.clock → ∀ (hist : List Op),
+    (∀ op ∈ hist, match op with | .edit k _ => KeyOK k | _ => True) → ∀ (force : Bool) (k t : Str),
+      (k, t) ∈ (run S (exec S w0 hist) force).trees →
+        ∃ sf, (exec S w0 hist).srcs.get? k = some sf ∧ t = S.parse ((exec S w0 hist).parserNow S) sf.data
+
+theorem tree_key_setting : tree_key_setting_statement := by
+  intro S H w0 hc hs hg hist hok force k t hkt
+  refine tree_key S H w0 hc hs hg hist (fun op hop => ?_) force k t hkt
+  have := hok op hop
+  cases op <;> first | exact this | trivial
+
+/-- regression (non-vacuity): the history that refuted the statement before 9dfb5b4 — one module, a run, the grammar path is
+    switched — under a semantics whose trees depend on the parser: the second run does not restore the tree of the first
+    grammar (no read of a tree file: the name differs), its tree carries the mark of the second grammar. -/
+example :
+    let w := exec gramSem { order := [['c']] } [.edit ['c'] [c1], .run true, .setting ['g', '2'] [] []]
+    (run gramSem w true).trees = [(['c'], [c1, 'g', '2', '}'])]
+    ∧ (run gramSem w true).log.all (fun e => !(e.1 == 'r' && e.2.take 1 == ['c'])) = true
+    ∧ treePath gramSem ['c'] [] [] [] 0 1 ∈ (w.cache.map (·.1)) := by
+  decide +kernel
 
 /-! ### C05.evict_safe — eviction by glob -/
 
@@ -241,6 +269,298 @@ example :
 
 /-- …and with no cache directory at all the disabled run succeeds as well (it died with FileNotFoundError before) -/
 example : (run cxSem { exec cxSem cxWorld (cxHist ++ [.enable false]) with cache := [], dirs := [] } true).err = none := by
+  decide +kernel
+
+/-! ### C05.key_covers — what the code hashes into the three cache keys (generated from the source)
+
+The key lists are `Generated/LarkCache.lean` (tree files, parser pickle: gen_lark_cache.py) and `Generated/CacheKeys.lean`
+(`Module.identity`, `FileLoader.load`, the persistor's gates and file names, `Cached`: gen_cache_keys.py), read from the source
+with `ast`. `readExpr`/`readStmt` below give each verbatim expression the input of the model it denotes (`none` = an expression
+this file does not understand, which fails the theorems). The theorems state, per cache, the list of inputs the key is made of
+— these are exactly the arguments of `Sem.treeIdent`, `Sem.parserIdent`, `identityCore` in Model/CacheFS.lean — and whether that
+list covers the inputs the cached value is a function of. A key component dropped in the code (or added) changes the generated
+list and these proofs fail. -/
+
+namespace KeyCover
+open Tranp.Generated
+
+/-- the inputs of a run a cached value may depend on -/
+inductive Input
+  | grammarMtime | grammarPath | start | algo | sourceMtime | ownBytes | importPath | importBytes
+  deriving DecidableEq, Repr
+
+/-- the verbatim expressions of the identity dictionaries and the input each denotes -/
+def readExpr (e : Str) : Option Input :=
+  if e = ['s', 't', 'r', '(', 's', 'e', 'l', 'f', '.', '_', '_', 'd', 'a', 't', 'u', 'm', 's', '.', 'm', 't', 'i', 'm', 'e', '(', 's', 'e', 'l', 'f', '.', '_', '_', 's', 'e', 't', 't', 'i', 'n', 'g', '.', 'g', 'r', 'a', 'm', 'm', 'a', 'r', ')', ')'] then some .grammarMtime
+  else if e = ['s', 'e', 'l', 'f', '.', '_', '_', 's', 'e', 't', 't', 'i', 'n', 'g', '.', 'g', 'r', 'a', 'm', 'm', 'a', 'r'] then some .grammarPath
+  else if e = ['s', 'e', 'l', 'f', '.', '_', '_', 's', 'e', 't', 't', 'i', 'n', 'g', '.', 's', 't', 'a', 'r', 't'] then some .start
+  else if e = ['s', 'e', 'l', 'f', '.', '_', '_', 's', 'e', 't', 't', 'i', 'n', 'g', '.', 'a', 'l', 'g', 'o', 'r', 'i', 't', 'h', 'e', 'm'] then some .algo
+  else if e = ['s', 't', 'r', '(', 's', 'e', 'l', 'f', '.', '_', '_', 's', 'o', 'u', 'r', 'c', 'e', 's', '.', 'm', 't', 'i', 'm', 'e', '(', 's', 'o', 'u', 'r', 'c', 'e', '_', 'p', 'a', 't', 'h', ')', ')'] then some .sourceMtime
+  else none
+
+def treeKeyInputs : List (Option Input) := LarkCache.treeIdentity.map (fun kv => readExpr kv.2)
+def parserKeyInputs : List (Option Input) := LarkCache.parserIdentity.map (fun kv => readExpr kv.2)
+
+/-- what the parser pickle is a function of: the grammar file (its path, and its content — of which the mtime is the proxy the
+    model's `World.grammarMtime` stands for), the start rule and the algorithm (`larkKwargs` of LarkCache.lean) -/
+def parserDeps : List Input := [.grammarMtime, .grammarPath, .start, .algo]
+/-- a cached tree is `parse (parser) (source)` (`treeGet` of the model): it depends on whatever the parser depends on, and on
+    the source file (its content; proxy: its mtime) -/
+def treeDeps : List Input := parserDeps ++ [.sourceMtime]
+
+def Covers (key : List (Option Input)) (deps : List Input) : Prop := ∀ d ∈ deps, some d ∈ key
+instance (key : List (Option Input)) (deps : List Input) : Decidable (Covers key deps) := by unfold Covers; infer_instance
+
+/-- the statements of `Module.identity` that put something into the hashed list, and what -/
+def readIdStmt (s : Str) : List Input :=
+  if s = ['i', 'd', 'e', 'n', 't', 'i', 't', 'i', 'e', 's', ' ', '=', ' ', '[', 'f', '\'', '{', 'f', 'i', 'l', 'e', 'p', 'a', 't', 'h', '}', ':', '{', 'h', 'a', 's', 'h', 'e', 's', '[', 'f', 'i', 'l', 'e', 'p', 'a', 't', 'h', ']', '}', '\'', ' ', 'f', 'o', 'r', ' ', 'f', 'i', 'l', 'e', 'p', 'a', 't', 'h', ' ', 'i', 'n', ' ', 's', 'o', 'r', 't', 'e', 'd', '(', 'h', 'a', 's', 'h', 'e', 's', '.', 'k', 'e', 'y', 's', '(', ')', ')', ' ', 'i', 'f', ' ', 'f', 'i', 'l', 'e', 'p', 'a', 't', 'h', ' ', '!', '=', ' ', 's', 'e', 'l', 'f', '.', 'f', 'i', 'l', 'e', 'p', 'a', 't', 'h', ']'] then [.importPath, .importBytes]
+  else if s = ['i', 'd', 'e', 'n', 't', 'i', 't', 'i', 'e', 's', '.', 'a', 'p', 'p', 'e', 'n', 'd', '(', 'h', 'a', 's', 'h', 'e', 's', '[', 's', 'e', 'l', 'f', '.', 'f', 'i', 'l', 'e', 'p', 'a', 't', 'h', ']', ')'] then [.ownBytes]
+  else []
+
+def symbolKeyInputs : List Input := (CacheKeys.moduleIdentity.map readIdStmt).flatten
+
+/-- a symbol table file holds the table of one module; it is a function of the module's tree and of the tables of every module
+    in its import closure (Lemmas/CacheFS.lean `IsTab`): the bytes of the own file, and path and bytes of each imported file. -/
+def symbolDeps : List Input := [.ownBytes, .importPath, .importBytes]
+
+end KeyCover
+
+open KeyCover in
+/-- The parser pickle's key is made of exactly the four arguments of `Sem.parserIdent` (in the code's order), every expression of
+    the generated dictionary is understood, and the key covers everything the pickle depends on. -/
+theorem parser_key_covers :
+    parserKeyInputs = [some .grammarMtime, some .grammarPath, some .start, some .algo] ∧ Covers parserKeyInputs parserDeps := by
+  decide +kernel
+
+open KeyCover in
+/-- The tree files' key is made of exactly the five arguments of `Sem.treeIdent`, in the code's order: the grammar's mtime,
+    its path, the start rule, the algorithm, the source's mtime (9dfb5b4). -/
+theorem tree_key_inputs :
+    treeKeyInputs = [some .grammarMtime, some .grammarPath, some .start, some .algo, some .sourceMtime] := by decide +kernel
+
+open KeyCover in
+/-- The tree key covers what a cached tree depends on: everything the parser is built from, and the source. -/
+theorem tree_key_covers : Covers treeKeyInputs treeDeps := by decide +kernel
+
+open KeyCover in
+/-- regression: the key before 9dfb5b4 (finding `tree-key-ignores-grammar-path`, corpus/C05/grammar-switch-same-mtime.json),
+    as a literal list, does not cover — exactly grammar path, start and algorithm were missing -/
+example : ¬ Covers [some .grammarMtime, some .sourceMtime] treeDeps
+    ∧ (∀ d, d ∈ treeDeps ∧ some d ∉ [some Input.grammarMtime, some .sourceMtime] ↔ d = .grammarPath ∨ d = .start ∨ d = .algo) := by
+  refine ⟨by decide +kernel, ?_⟩
+  intro d; cases d <;> decide +kernel
+
+namespace KeyCover
+/-- the values of the inputs in one run -/
+structure Env where
+  gm : Nat
+  sm : Nat
+  gp : Str
+  st : Str
+  al : Str
+
+def Env.val (e : Env) : Input → Nat ⊕ Str
+  | .grammarMtime => .inl e.gm
+  | .sourceMtime => .inl e.sm
+  | .grammarPath => .inr e.gp
+  | .start => .inr e.st
+  | .algo => .inr e.al
+  | _ => .inr []
+
+/-- the model's tree-file and parser-pickle names in a run -/
+def treeName (S : Sem) (key : Str) (e : Env) : Str := treePath S key e.gp e.st e.al e.gm e.sm
+def parserName (S : Sem) (e : Env) : Str := parserPath S e.gp e.st e.al e.gm
+end KeyCover
+
+open KeyCover in
+/-- The model hashes what the code hashes: two runs give a module's tree file the same name in the model exactly when they
+    agree on every input in the GENERATED key list of the tree cache. (A key component added to or dropped from the code's
+    dictionary makes one direction fail until the model follows.) -/
+theorem tree_name_exact (S : Sem) (H : Hyp S) (key : Str) (e e' : Env) :
+    treeName S key e = treeName S key e' ↔ ∀ i, some i ∈ treeKeyInputs → e.val i = e'.val i := by
+  rw [tree_key_inputs]
+  constructor
+  · intro h i hi
+    obtain ⟨_, h1, h2, h3, h4, h5⟩ := treePath_inj H h
+    simp at hi
+    rcases hi with rfl | rfl | rfl | rfl | rfl <;> simp [Env.val, h1, h2, h3, h4, h5]
+  · intro h
+    have h1 := h .grammarMtime (by simp)
+    have h2 := h .grammarPath (by simp)
+    have h3 := h .start (by simp)
+    have h4 := h .algo (by simp)
+    have h5 := h .sourceMtime (by simp)
+    simp [Env.val] at h1 h2 h3 h4 h5
+    simp [treeName, h1, h2, h3, h4, h5]
+
+open KeyCover in
+/-- … the same for the parser pickle: its name in the model is determined by, and determines, exactly the generated key list. -/
+theorem parser_name_exact (S : Sem) (H : Hyp S) (e e' : Env) :
+    parserName S e = parserName S e' ↔ ∀ i, some i ∈ parserKeyInputs → e.val i = e'.val i := by
+  rw [parser_key_covers.1]
+  constructor
+  · intro h i hi
+    obtain ⟨h1, h2, h3, h4⟩ := parserPath_inj H h
+    simp at hi
+    rcases hi with rfl | rfl | rfl | rfl <;> simp [Env.val, h1, h2, h3, h4]
+  · intro h
+    have h1 := h .grammarMtime (by simp)
+    have h2 := h .grammarPath (by simp)
+    have h3 := h .start (by simp)
+    have h4 := h .algo (by simp)
+    simp [Env.val] at h1 h2 h3 h4
+    simp [parserName, h1, h2, h3, h4]
+
+/-- non-vacuity: two runs differing only in the grammar's path share neither the tree file's name nor the parser pickle's -/
+example : KeyCover.treeName cxSem ['m'] ⟨1, 2, ['g'], [], []⟩ ≠ KeyCover.treeName cxSem ['m'] ⟨1, 2, ['h'], [], []⟩
+    ∧ KeyCover.parserName cxSem ⟨1, 2, ['g'], [], []⟩ ≠ KeyCover.parserName cxSem ⟨1, 2, ['h'], [], []⟩ := by
+  refine ⟨fun h => ?_, fun h => ?_⟩
+  · have := (treePath_inj cxSem_hyp h).2.1
+    simp at this
+  · have := (parserPath_inj cxSem_hyp h).1
+    simp at this
+
+open KeyCover Tranp.Generated in
+/-- `Module.identity` and `Module.__collect_hashes`, statement by statement, are the shapes `identityCore` and `collect` of the
+    model implement: no source file → object id (never a file name: `_can_store`/`_can_restore` test the same condition);
+    memo; `hashes` filled by the recursion over `depends_on` with the visited test FIRST (termination on import cycles) and the
+    own hash recorded before descending; for a module without `depends_on` the direct imports only (`shallow`);
+    sorted `path:hash` pairs of every other file, the own hash last, md5 of the list's `str`. -/
+theorem symbol_identity_shape :
+    CacheKeys.moduleIdentity = [['i', 'f', ' ', 'n', 'o', 't', ' ', 's', 'e', 'l', 'f', '.', '_', '_', 's', 'o', 'u', 'r', 'c', 'e', 's', '.', 'e', 'x', 'i', 's', 't', 's', '(', 's', 'e', 'l', 'f', '.', 'f', 'i', 'l', 'e', 'p', 'a', 't', 'h', ')', ':'],
+      ['r', 'e', 't', 'u', 'r', 'n', ' ', 's', 't', 'r', '(', 'i', 'd', '(', 's', 'e', 'l', 'f', ')', ')'],
+      ['e', 'n', 'd'],
+      ['i', 'f', ' ', 's', 'e', 'l', 'f', '.', '_', '_', 'i', 'd', 'e', 'n', 't', 'i', 't', 'y', ':'],
+      ['r', 'e', 't', 'u', 'r', 'n', ' ', 's', 'e', 'l', 'f', '.', '_', '_', 'i', 'd', 'e', 'n', 't', 'i', 't', 'y'],
+      ['e', 'n', 'd'],
+      ['h', 'a', 's', 'h', 'e', 's', ':', ' ', 'd', 'i', 'c', 't', '[', 's', 't', 'r', ',', ' ', 's', 't', 'r', ']', ' ', '=', ' ', '{', '}'],
+      ['s', 'e', 'l', 'f', '.', '_', '_', 'c', 'o', 'l', 'l', 'e', 'c', 't', '_', 'h', 'a', 's', 'h', 'e', 's', '(', 'h', 'a', 's', 'h', 'e', 's', ')'],
+      ['i', 'd', 'e', 'n', 't', 'i', 't', 'i', 'e', 's', ' ', '=', ' ', '[', 'f', '\'', '{', 'f', 'i', 'l', 'e', 'p', 'a', 't', 'h', '}', ':', '{', 'h', 'a', 's', 'h', 'e', 's', '[', 'f', 'i', 'l', 'e', 'p', 'a', 't', 'h', ']', '}', '\'', ' ', 'f', 'o', 'r', ' ', 'f', 'i', 'l', 'e', 'p', 'a', 't', 'h', ' ', 'i', 'n', ' ', 's', 'o', 'r', 't', 'e', 'd', '(', 'h', 'a', 's', 'h', 'e', 's', '.', 'k', 'e', 'y', 's', '(', ')', ')', ' ', 'i', 'f', ' ', 'f', 'i', 'l', 'e', 'p', 'a', 't', 'h', ' ', '!', '=', ' ', 's', 'e', 'l', 'f', '.', 'f', 'i', 'l', 'e', 'p', 'a', 't', 'h', ']'],
+      ['i', 'd', 'e', 'n', 't', 'i', 't', 'i', 'e', 's', '.', 'a', 'p', 'p', 'e', 'n', 'd', '(', 'h', 'a', 's', 'h', 'e', 's', '[', 's', 'e', 'l', 'f', '.', 'f', 'i', 'l', 'e', 'p', 'a', 't', 'h', ']', ')'],
+      ['s', 'e', 'l', 'f', '.', '_', '_', 'i', 'd', 'e', 'n', 't', 'i', 't', 'y', ' ', '=', ' ', 'h', 'a', 's', 'h', 'l', 'i', 'b', '.', 'm', 'd', '5', '(', 's', 't', 'r', '(', 'i', 'd', 'e', 'n', 't', 'i', 't', 'i', 'e', 's', ')', '.', 'e', 'n', 'c', 'o', 'd', 'e', '(', '\'', 'u', 't', 'f', '-', '8', '\'', ')', ')', '.', 'h', 'e', 'x', 'd', 'i', 'g', 'e', 's', 't', '(', ')'],
+      ['r', 'e', 't', 'u', 'r', 'n', ' ', 's', 'e', 'l', 'f', '.', '_', '_', 'i', 'd', 'e', 'n', 't', 'i', 't', 'y']]
+    ∧ CacheKeys.moduleCollect = [['i', 'f', ' ', 's', 'e', 'l', 'f', '.', 'f', 'i', 'l', 'e', 'p', 'a', 't', 'h', ' ', 'i', 'n', ' ', 'h', 'a', 's', 'h', 'e', 's', ':'],
+      ['r', 'e', 't', 'u', 'r', 'n'],
+      ['e', 'n', 'd'],
+      ['h', 'a', 's', 'h', 'e', 's', '[', 's', 'e', 'l', 'f', '.', 'f', 'i', 'l', 'e', 'p', 'a', 't', 'h', ']', ' ', '=', ' ', 's', 'e', 'l', 'f', '.', '_', '_', 's', 'o', 'u', 'r', 'c', 'e', 's', '.', 'h', 'a', 's', 'h', '(', 's', 'e', 'l', 'f', '.', 'f', 'i', 'l', 'e', 'p', 'a', 't', 'h', ')'],
+      ['i', 'f', ' ', 's', 'e', 'l', 'f', '.', '_', '_', 'd', 'e', 'p', 'e', 'n', 'd', 's', ' ', 'i', 's', ' ', 'n', 'o', 't', ' ', 'N', 'o', 'n', 'e', ':'],
+      ['f', 'o', 'r', ' ', 'm', 'o', 'd', 'u', 'l', 'e', ' ', 'i', 'n', ' ', 's', 'e', 'l', 'f', '.', '_', '_', 'd', 'e', 'p', 'e', 'n', 'd', 's', ':'],
+      ['i', 'f', ' ', 'm', 'o', 'd', 'u', 'l', 'e', '.', 'i', 'n', '_', 's', 't', 'o', 'r', 'a', 'g', 'e', '(', ')', ':'],
+      ['m', 'o', 'd', 'u', 'l', 'e', '.', '_', '_', 'c', 'o', 'l', 'l', 'e', 'c', 't', '_', 'h', 'a', 's', 'h', 'e', 's', '(', 'h', 'a', 's', 'h', 'e', 's', ')'],
+      ['e', 'n', 'd'],
+      ['e', 'n', 'd'],
+      ['e', 'l', 's', 'e', ':'],
+      ['f', 'o', 'r', ' ', 'i', 'm', 'p', 'o', 'r', 't', '_', 'n', 'o', 'd', 'e', ' ', 'i', 'n', ' ', 's', 'e', 'l', 'f', '.', 'e', 'n', 't', 'r', 'y', 'p', 'o', 'i', 'n', 't', '.', 'i', 'm', 'p', 'o', 'r', 't', 's', ':'],
+      ['f', 'i', 'l', 'e', 'p', 'a', 't', 'h', ' ', '=', ' ', 'm', 'o', 'd', 'u', 'l', 'e', '_', 'p', 'a', 't', 'h', '_', 't', 'o', '_', 'f', 'i', 'l', 'e', 'p', 'a', 't', 'h', '(', 'i', 'm', 'p', 'o', 'r', 't', '_', 'n', 'o', 'd', 'e', '.', 'i', 'm', 'p', 'o', 'r', 't', '_', 'p', 'a', 't', 'h', '.', 't', 'o', 'k', 'e', 'n', 's', ',', ' ', 'f', '\'', '.', '{', 's', 'e', 'l', 'f', '.', 'm', 'o', 'd', 'u', 'l', 'e', '_', 'p', 'a', 't', 'h', '.', 'l', 'a', 'n', 'g', 'u', 'a', 'g', 'e', '}', '\'', ')'],
+      ['i', 'f', ' ', 'f', 'i', 'l', 'e', 'p', 'a', 't', 'h', ' ', 'n', 'o', 't', ' ', 'i', 'n', ' ', 'h', 'a', 's', 'h', 'e', 's', ':'],
+      ['h', 'a', 's', 'h', 'e', 's', '[', 'f', 'i', 'l', 'e', 'p', 'a', 't', 'h', ']', ' ', '=', ' ', 's', 'e', 'l', 'f', '.', '_', '_', 's', 'o', 'u', 'r', 'c', 'e', 's', '.', 'h', 'a', 's', 'h', '(', 'f', 'i', 'l', 'e', 'p', 'a', 't', 'h', ')'],
+      ['e', 'n', 'd'],
+      ['e', 'n', 'd'],
+      ['e', 'n', 'd']]
+    ∧ CacheKeys.moduleDependsOn = [['s', 'e', 'l', 'f', '.', '_', '_', 'd', 'e', 'p', 'e', 'n', 'd', 's', ' ', '=', ' ', 'm', 'o', 'd', 'u', 'l', 'e', 's']] := by
+  decide +kernel
+
+open KeyCover in
+/-- The symbol files' key is made of the own file's hash and of path and hash of the other collected files, it covers the
+    inputs a symbol table depends on (`symbols` proves the run-level statement from exactly these components, `id_covers`), -/
+theorem symbol_key_covers :
+    symbolKeyInputs = [.importPath, .importBytes, .ownBytes] ∧ (∀ d ∈ symbolDeps, d ∈ symbolKeyInputs) := by
+  decide +kernel
+
+open KeyCover in
+/-- … and it contains nothing of the grammar: a symbol file written under one grammar is restored under another one. (The
+    trees the tables were computed from do depend on the grammar; no real witness is known where two grammars give different
+    tables for the same bytes, so this is a fact about the key, not a finding.) -/
+theorem symbol_key_no_grammar : ∀ d ∈ parserDeps, d ∉ symbolKeyInputs := by decide +kernel
+
+open Tranp.Generated in
+/-- The file hash is the md5 of exactly the bytes read (no decoding, stripping or normalising before hashing) — `Sem.hash` is
+    applied to `File.data` in the model —, and `hash` of a file not yet loaded loads it. -/
+theorem file_hash_exact :
+    CacheKeys.loaderLoad = [['f', 'o', 'u', 'n', 'd', '_', 'f', 'i', 'l', 'e', 'p', 'a', 't', 'h', ' ', '=', ' ', 's', 'e', 'l', 'f', '.', '_', '_', 'r', 'e', 's', 'o', 'l', 'v', 'e', '_', 'f', 'i', 'l', 'e', 'p', 'a', 't', 'h', '(', 'f', 'i', 'l', 'e', 'p', 'a', 't', 'h', ')'],
+      ['i', 'f', ' ', 'f', 'o', 'u', 'n', 'd', '_', 'f', 'i', 'l', 'e', 'p', 'a', 't', 'h', ' ', 'i', 's', ' ', 'N', 'o', 'n', 'e', ':'],
+      ['r', 'a', 'i', 's', 'e', ' ', 'F', 'i', 'l', 'e', 'N', 'o', 't', 'F', 'o', 'u', 'n', 'd', 'E', 'r', 'r', 'o', 'r', '(', 'f', '\'', 'N', 'o', ' ', 's', 'u', 'c', 'h', ' ', 'f', 'i', 'l', 'e', ' ', 'o', 'r', ' ', 'd', 'i', 'r', 'e', 'c', 't', 'o', 'r', 'y', '.', ' ', 'f', 'i', 'l', 'e', 'p', 'a', 't', 'h', ':', ' ', '{', 'f', 'i', 'l', 'e', 'p', 'a', 't', 'h', '}', '\'', ')'],
+      ['e', 'n', 'd'],
+      ['w', 'i', 't', 'h', ' ', 'o', 'p', 'e', 'n', '(', 'f', 'o', 'u', 'n', 'd', '_', 'f', 'i', 'l', 'e', 'p', 'a', 't', 'h', ',', ' ', 'm', 'o', 'd', 'e', '=', '\'', 'r', 'b', '\'', ')', ' ', 'a', 's', ' ', 'f', ':'],
+      ['c', 'o', 'n', 't', 'e', 'n', 't', '_', 'b', 'y', 't', 'e', 's', ' ', '=', ' ', 'f', '.', 'r', 'e', 'a', 'd', '(', ')'],
+      ['s', 'e', 'l', 'f', '.', '_', '_', 'h', 'a', 's', 'h', 's', '[', 'f', 'o', 'u', 'n', 'd', '_', 'f', 'i', 'l', 'e', 'p', 'a', 't', 'h', ']', ' ', '=', ' ', 'h', 'a', 's', 'h', 'l', 'i', 'b', '.', 'm', 'd', '5', '(', 'c', 'o', 'n', 't', 'e', 'n', 't', '_', 'b', 'y', 't', 'e', 's', ')', '.', 'h', 'e', 'x', 'd', 'i', 'g', 'e', 's', 't', '(', ')'],
+      ['r', 'e', 't', 'u', 'r', 'n', ' ', 'c', 'o', 'n', 't', 'e', 'n', 't', '_', 'b', 'y', 't', 'e', 's', '.', 'd', 'e', 'c', 'o', 'd', 'e', '(', '\'', 'u', 't', 'f', '-', '8', '\'', ')'],
+      ['e', 'n', 'd']]
+    ∧ CacheKeys.loaderHash = [['f', 'o', 'u', 'n', 'd', '_', 'f', 'i', 'l', 'e', 'p', 'a', 't', 'h', ' ', '=', ' ', 's', 'e', 'l', 'f', '.', '_', '_', 'r', 'e', 's', 'o', 'l', 'v', 'e', '_', 'f', 'i', 'l', 'e', 'p', 'a', 't', 'h', '(', 'f', 'i', 'l', 'e', 'p', 'a', 't', 'h', ')'],
+      ['i', 'f', ' ', 'f', 'o', 'u', 'n', 'd', '_', 'f', 'i', 'l', 'e', 'p', 'a', 't', 'h', ' ', 'i', 's', ' ', 'N', 'o', 'n', 'e', ':'],
+      ['r', 'a', 'i', 's', 'e', ' ', 'F', 'i', 'l', 'e', 'N', 'o', 't', 'F', 'o', 'u', 'n', 'd', 'E', 'r', 'r', 'o', 'r', '(', 'f', '\'', 'N', 'o', ' ', 's', 'u', 'c', 'h', ' ', 'f', 'i', 'l', 'e', ' ', 'o', 'r', ' ', 'd', 'i', 'r', 'e', 'c', 't', 'o', 'r', 'y', '.', ' ', 'f', 'i', 'l', 'e', 'p', 'a', 't', 'h', ':', ' ', '{', 'f', 'i', 'l', 'e', 'p', 'a', 't', 'h', '}', '\'', ')'],
+      ['e', 'n', 'd'],
+      ['i', 'f', ' ', 'f', 'o', 'u', 'n', 'd', '_', 'f', 'i', 'l', 'e', 'p', 'a', 't', 'h', ' ', 'n', 'o', 't', ' ', 'i', 'n', ' ', 's', 'e', 'l', 'f', '.', '_', '_', 'h', 'a', 's', 'h', 's', ':'],
+      ['s', 'e', 'l', 'f', '.', 'l', 'o', 'a', 'd', '(', 'f', 'o', 'u', 'n', 'd', '_', 'f', 'i', 'l', 'e', 'p', 'a', 't', 'h', ')'],
+      ['e', 'n', 'd'],
+      ['r', 'e', 't', 'u', 'r', 'n', ' ', 's', 'e', 'l', 'f', '.', '_', '_', 'h', 'a', 's', 'h', 's', '[', 'f', 'o', 'u', 'n', 'd', '_', 'f', 'i', 'l', 'e', 'p', 'a', 't', 'h', ']']] := by
+  decide +kernel
+
+open Tranp.Generated in
+/-- The gates: the persistor stores and restores only when the cache is enabled and the module is in storage, stores only when
+    the file is absent and restores only when it is present; `CacheProvider.get` takes the class without disk access when
+    disabled (`disabled`). -/
+theorem gates_shape :
+    CacheKeys.canStore = [['s', 'e', 'l', 'f', '.', 's', 'e', 't', 't', 'i', 'n', 'g', '.', 'e', 'n', 'a', 'b', 'l', 'e', 'd'],
+      ['m', 'o', 'd', 'u', 'l', 'e', '.', 'i', 'n', '_', 's', 't', 'o', 'r', 'a', 'g', 'e', '(', ')'],
+      ['n', 'o', 't', ' ', 's', 'e', 'l', 'f', '.', 's', 'o', 'u', 'r', 'c', 'e', 's', '.', 'e', 'x', 'i', 's', 't', 's', '(', 'f', 'i', 'l', 'e', 'p', 'a', 't', 'h', ')']]
+    ∧ CacheKeys.canRestore = [['s', 'e', 'l', 'f', '.', 's', 'e', 't', 't', 'i', 'n', 'g', '.', 'e', 'n', 'a', 'b', 'l', 'e', 'd'],
+      ['m', 'o', 'd', 'u', 'l', 'e', '.', 'i', 'n', '_', 's', 't', 'o', 'r', 'a', 'g', 'e', '(', ')'],
+      ['s', 'e', 'l', 'f', '.', 's', 'o', 'u', 'r', 'c', 'e', 's', '.', 'e', 'x', 'i', 's', 't', 's', '(', 'f', 'i', 'l', 'e', 'p', 'a', 't', 'h', ')']]
+    ∧ CacheKeys.providerCtor = [['c', 't', 'o', 'r', ' ', '=', ' ', 'C', 'a', 'c', 'h', 'e', 'd', 'P', 'r', 'o', 'x', 'y', ' ', 'i', 'f', ' ', 's', 'e', 'l', 'f', '.', '_', '_', 's', 'e', 't', 't', 'i', 'n', 'g', '.', 'e', 'n', 'a', 'b', 'l', 'e', 'd', ' ', 'e', 'l', 's', 'e', ' ', 'C', 'a', 'c', 'h', 'e', 'd', 'D', 'u', 'm', 'm', 'y']] := by
+  decide +kernel
+
+open Tranp.Generated in
+/-- File names and eviction patterns: `<key>-<md5 of str(identity)><ext>` evicted by `<all but the last dash part>-*<ext>`
+    (`cachePath`, `evictPattern` of the model; the over-match is `evict_safe`), symbols `<module>-symbols-<identity>.json`
+    evicted by `<module>-symbols-*.json`; eviction happens before the write, restoring is `json.loads` of the whole file. -/
+theorem file_name_shape :
+    CacheKeys.identifier = [['r', 'e', 't', 'u', 'r', 'n', ' ', 'h', 'a', 's', 'h', 'l', 'i', 'b', '.', 'm', 'd', '5', '(', 's', 't', 'r', '(', 'i', 'd', 'e', 'n', 't', 'i', 't', 'y', ')', '.', 'e', 'n', 'c', 'o', 'd', 'e', '(', '\'', 'u', 't', 'f', '-', '8', '\'', ')', ')', '.', 'h', 'e', 'x', 'd', 'i', 'g', 'e', 's', 't', '(', ')']]
+    ∧ CacheKeys.genCachePath = [['f', 'i', 'l', 'e', '_', 'f', 'o', 'r', 'm', 'a', 't', ' ', '=', ' ', 's', 'e', 'l', 'f', '.', '_', 'o', 'p', 't', 'i', 'o', 'n', 's', '.', 'g', 'e', 't', '(', '\'', 'f', 'o', 'r', 'm', 'a', 't', '\'', ',', ' ', '\'', '\'', ')'],
+      ['e', 'x', 't', 'e', 'n', 't', 'i', 'o', 'n', ' ', '=', ' ', 'f', '\'', '.', '{', 'f', 'i', 'l', 'e', '_', 'f', 'o', 'r', 'm', 'a', 't', '}', '\'', ' ', 'i', 'f', ' ', 'f', 'i', 'l', 'e', '_', 'f', 'o', 'r', 'm', 'a', 't', ' ', 'e', 'l', 's', 'e', ' ', '\'', '\''],
+      ['f', 'i', 'l', 'e', 'n', 'a', 'm', 'e', ' ', '=', ' ', 'f', '\'', '{', 'c', 'a', 'c', 'h', 'e', '_', 'k', 'e', 'y', '}', '-', '{', 's', 'e', 'l', 'f', '.', 'i', 'd', 'e', 'n', 't', 'i', 'f', 'i', 'e', 'r', '(', 's', 'e', 'l', 'f', '.', '_', 'i', 'd', 'e', 'n', 't', 'i', 't', 'y', ')', '}', '{', 'e', 'x', 't', 'e', 'n', 't', 'i', 'o', 'n', '}', '\''],
+      ['r', 'e', 't', 'u', 'r', 'n', ' ', 'o', 's', '.', 'p', 'a', 't', 'h', '.', 'a', 'b', 's', 'p', 'a', 't', 'h', '(', 'o', 's', '.', 'p', 'a', 't', 'h', '.', 'j', 'o', 'i', 'n', '(', 'o', 's', '.', 'g', 'e', 't', 'c', 'w', 'd', '(', ')', ',', ' ', 's', 'e', 'l', 'f', '.', '_', 'b', 'a', 's', 'e', 'd', 'i', 'r', ',', ' ', 'f', 'i', 'l', 'e', 'n', 'a', 'm', 'e', ')', ')']]
+    ∧ CacheKeys.findOldest = [['e', 'l', 'e', 'm', 's', ' ', '=', ' ', 'c', 'a', 'c', 'h', 'e', '_', 'p', 'a', 't', 'h', '.', 's', 'p', 'l', 'i', 't', '(', '\'', '-', '\'', ')', '[', ':', '-', '1', ']'],
+      ['b', 'a', 's', 'e', 'p', 'a', 't', 'h', ' ', '=', ' ', '\'', '-', '\'', '.', 'j', 'o', 'i', 'n', '(', 'e', 'l', 'e', 'm', 's', ')'],
+      ['f', 'i', 'l', 'e', '_', 'f', 'o', 'r', 'm', 'a', 't', ' ', '=', ' ', 's', 'e', 'l', 'f', '.', '_', 'o', 'p', 't', 'i', 'o', 'n', 's', '.', 'g', 'e', 't', '(', '\'', 'f', 'o', 'r', 'm', 'a', 't', '\'', ',', ' ', '\'', '\'', ')'],
+      ['e', 'x', 't', 'e', 'n', 't', 'i', 'o', 'n', ' ', '=', ' ', 'f', '\'', '.', '{', 'f', 'i', 'l', 'e', '_', 'f', 'o', 'r', 'm', 'a', 't', '}', '\'', ' ', 'i', 'f', ' ', 'f', 'i', 'l', 'e', '_', 'f', 'o', 'r', 'm', 'a', 't', ' ', 'e', 'l', 's', 'e', ' ', '\'', '\''],
+      ['g', 'l', 'o', 'b', '_', 'p', 'a', 't', 't', 'e', 'r', 'n', ' ', '=', ' ', 'f', '\'', '{', 'b', 'a', 's', 'e', 'p', 'a', 't', 'h', '}', '-', '*', '{', 'e', 'x', 't', 'e', 'n', 't', 'i', 'o', 'n', '}', '\''],
+      ['r', 'e', 't', 'u', 'r', 'n', ' ', 'g', 'l', 'o', 'b', '.', 'g', 'l', 'o', 'b', '(', 'g', 'l', 'o', 'b', '_', 'p', 'a', 't', 't', 'e', 'r', 'n', ')']]
+    ∧ CacheKeys.proxyGet = [['c', 'a', 'c', 'h', 'e', '_', 'p', 'a', 't', 'h', ' ', '=', ' ', 's', 'e', 'l', 'f', '.', 'g', 'e', 'n', '_', 'c', 'a', 'c', 'h', 'e', '_', 'p', 'a', 't', 'h', '(', 'c', 'a', 'c', 'h', 'e', '_', 'k', 'e', 'y', ')'],
+      ['i', 'f', ' ', 's', 'e', 'l', 'f', '.', 'c', 'a', 'c', 'h', 'e', '_', 'e', 'x', 'i', 's', 't', 's', '(', 'c', 'a', 'c', 'h', 'e', '_', 'p', 'a', 't', 'h', ')', ':'],
+      ['r', 'e', 't', 'u', 'r', 'n', ' ', 's', 'e', 'l', 'f', '.', 'l', 'o', 'a', 'd', '_', 'c', 'a', 'c', 'h', 'e', '(', 'c', 'a', 'c', 'h', 'e', '_', 'p', 'a', 't', 'h', ')'],
+      ['e', 'n', 'd'],
+      ['i', 'n', 's', 't', 'a', 'n', 'c', 'e', ' ', '=', ' ', 's', 'e', 'l', 'f', '.', 'i', 'n', 's', 't', 'a', 'n', 't', 'i', 'a', 't', 'e', '(', ')'],
+      ['s', 'e', 'l', 'f', '.', 's', 'a', 'v', 'e', '_', 'c', 'a', 'c', 'h', 'e', '(', 'i', 'n', 's', 't', 'a', 'n', 'c', 'e', ',', ' ', 'c', 'a', 'c', 'h', 'e', '_', 'p', 'a', 't', 'h', ')'],
+      ['r', 'e', 't', 'u', 'r', 'n', ' ', 'i', 'n', 's', 't', 'a', 'n', 'c', 'e']]
+    ∧ CacheKeys.saveCache = [['d', 'i', 'r', 'p', 'a', 't', 'h', ' ', '=', ' ', 'o', 's', '.', 'p', 'a', 't', 'h', '.', 'd', 'i', 'r', 'n', 'a', 'm', 'e', '(', 'c', 'a', 'c', 'h', 'e', '_', 'p', 'a', 't', 'h', ')'],
+      ['i', 'f', ' ', 'n', 'o', 't', ' ', 'o', 's', '.', 'p', 'a', 't', 'h', '.', 'e', 'x', 'i', 's', 't', 's', '(', 'd', 'i', 'r', 'p', 'a', 't', 'h', ')', ':'],
+      ['o', 's', '.', 'm', 'a', 'k', 'e', 'd', 'i', 'r', 's', '(', 'd', 'i', 'r', 'p', 'a', 't', 'h', ')'],
+      ['e', 'n', 'd'],
+      ['f', 'o', 'r', ' ', 'o', 'l', 'd', 'e', 's', 't', ' ', 'i', 'n', ' ', 's', 'e', 'l', 'f', '.', 'f', 'i', 'n', 'd', '_', 'o', 'l', 'd', 'e', 's', 't', '(', 'c', 'a', 'c', 'h', 'e', '_', 'p', 'a', 't', 'h', ')', ':'],
+      ['o', 's', '.', 'u', 'n', 'l', 'i', 'n', 'k', '(', 'o', 'l', 'd', 'e', 's', 't', ')'],
+      ['e', 'n', 'd'],
+      ['w', 'i', 't', 'h', ' ', 'o', 'p', 'e', 'n', '(', 'c', 'a', 'c', 'h', 'e', '_', 'p', 'a', 't', 'h', ',', ' ', 'm', 'o', 'd', 'e', '=', '\'', 'w', 'b', '\'', ')', ' ', 'a', 's', ' ', 'f', ':'],
+      ['i', 'n', 's', 't', 'a', 'n', 'c', 'e', '.', 's', 'a', 'v', 'e', '(', 'f', ')'],
+      ['e', 'n', 'd']]
+    ∧ CacheKeys.genFilepath = [['b', 'a', 's', 'e', 'p', 'a', 't', 'h', ' ', '=', ' ', 'm', 'o', 'd', 'u', 'l', 'e', '_', 'p', 'a', 't', 'h', '_', 't', 'o', '_', 'f', 'i', 'l', 'e', 'p', 'a', 't', 'h', '(', 'm', 'o', 'd', 'u', 'l', 'e', '.', 'p', 'a', 't', 'h', ')'],
+      ['i', 'd', 'e', 'n', 't', 'i', 't', 'y', ' ', '=', ' ', 'm', 'o', 'd', 'u', 'l', 'e', '.', 'i', 'd', 'e', 'n', 't', 'i', 't', 'y', '(', ')'],
+      ['f', 'i', 'l', 'e', 'n', 'a', 'm', 'e', ' ', '=', ' ', 'f', '\'', '{', 'b', 'a', 's', 'e', 'p', 'a', 't', 'h', '}', '-', 's', 'y', 'm', 'b', 'o', 'l', 's', '-', '{', 'i', 'd', 'e', 'n', 't', 'i', 't', 'y', '}', '.', 'j', 's', 'o', 'n', '\''],
+      ['r', 'e', 't', 'u', 'r', 'n', ' ', 'o', 's', '.', 'p', 'a', 't', 'h', '.', 'a', 'b', 's', 'p', 'a', 't', 'h', '(', 'o', 's', '.', 'p', 'a', 't', 'h', '.', 'j', 'o', 'i', 'n', '(', 'o', 's', '.', 'g', 'e', 't', 'c', 'w', 'd', '(', ')', ',', ' ', 's', 'e', 'l', 'f', '.', 's', 'e', 't', 't', 'i', 'n', 'g', '.', 'b', 'a', 's', 'e', 'd', 'i', 'r', ',', ' ', 'f', 'i', 'l', 'e', 'n', 'a', 'm', 'e', ')', ')']]
+    ∧ CacheKeys.genGlobPattern = [['b', 'a', 's', 'e', 'p', 'a', 't', 'h', ' ', '=', ' ', 'm', 'o', 'd', 'u', 'l', 'e', '_', 'p', 'a', 't', 'h', '_', 't', 'o', '_', 'f', 'i', 'l', 'e', 'p', 'a', 't', 'h', '(', 'm', 'o', 'd', 'u', 'l', 'e', '.', 'p', 'a', 't', 'h', ')'],
+      ['f', 'i', 'l', 'e', 'n', 'a', 'm', 'e', ' ', '=', ' ', 'f', '\'', '{', 'b', 'a', 's', 'e', 'p', 'a', 't', 'h', '}', '-', 's', 'y', 'm', 'b', 'o', 'l', 's', '-', '*', '.', 'j', 's', 'o', 'n', '\''],
+      ['r', 'e', 't', 'u', 'r', 'n', ' ', 'o', 's', '.', 'p', 'a', 't', 'h', '.', 'a', 'b', 's', 'p', 'a', 't', 'h', '(', 'o', 's', '.', 'p', 'a', 't', 'h', '.', 'j', 'o', 'i', 'n', '(', 'o', 's', '.', 'g', 'e', 't', 'c', 'w', 'd', '(', ')', ',', ' ', 's', 'e', 'l', 'f', '.', 's', 'e', 't', 't', 'i', 'n', 'g', '.', 'b', 'a', 's', 'e', 'd', 'i', 'r', ',', ' ', 'f', 'i', 'l', 'e', 'n', 'a', 'm', 'e', ')', ')']]
+    ∧ CacheKeys.persistStore = [['f', 'o', 'r', ' ', 'o', 'l', 'd', 'e', 's', 't', ' ', 'i', 'n', ' ', 's', 'e', 'l', 'f', '.', '_', 'f', 'i', 'n', 'd', '_', 'o', 'l', 'd', 'e', 's', 't', '(', 'm', 'o', 'd', 'u', 'l', 'e', ')', ':'],
+      ['o', 's', '.', 'u', 'n', 'l', 'i', 'n', 'k', '(', 'o', 'l', 'd', 'e', 's', 't', ')'],
+      ['e', 'n', 'd'],
+      ['d', 'a', 't', 'a', ' ', '=', ' ', 'd', 'b', '.', 't', 'o', '_', 'j', 's', 'o', 'n', '(', 's', 'e', 'l', 'f', '.', 's', 'e', 'r', 'i', 'a', 'l', 'i', 'z', 'e', 'r', ',', ' ', 'f', 'o', 'r', '_', 'm', 'o', 'd', 'u', 'l', 'e', '_', 'p', 'a', 't', 'h', '=', 'm', 'o', 'd', 'u', 'l', 'e', '.', 'p', 'a', 't', 'h', ')'],
+      ['w', 'i', 't', 'h', ' ', 'o', 'p', 'e', 'n', '(', 'f', 'i', 'l', 'e', 'p', 'a', 't', 'h', ',', ' ', 'm', 'o', 'd', 'e', '=', '\'', 'w', 'b', '\'', ')', ' ', 'a', 's', ' ', 'f', ':'],
+      ['j', 's', 'o', 'n', '_', 's', 't', 'r', ' ', '=', ' ', 'j', 's', 'o', 'n', '.', 'd', 'u', 'm', 'p', 's', '(', 'd', 'a', 't', 'a', ',', ' ', 's', 'e', 'p', 'a', 'r', 'a', 't', 'o', 'r', 's', '=', '(', '\'', ',', '\'', ',', ' ', '\'', ':', '\'', ')', ')'],
+      ['f', '.', 'w', 'r', 'i', 't', 'e', '(', 'j', 's', 'o', 'n', '_', 's', 't', 'r', '.', 'e', 'n', 'c', 'o', 'd', 'e', '(', '\'', 'u', 't', 'f', '-', '8', '\'', ')', ')'],
+      ['e', 'n', 'd']]
+    ∧ CacheKeys.persistRestore = [['c', 'o', 'n', 't', 'e', 'n', 't', ' ', '=', ' ', 's', 'e', 'l', 'f', '.', 's', 'o', 'u', 'r', 'c', 'e', 's', '.', 'l', 'o', 'a', 'd', '(', 'f', 'i', 'l', 'e', 'p', 'a', 't', 'h', ')'],
+      ['d', 'a', 't', 'a', ' ', '=', ' ', 'j', 's', 'o', 'n', '.', 'l', 'o', 'a', 'd', 's', '(', 'c', 'o', 'n', 't', 'e', 'n', 't', ')'],
+      ['d', 'b', '.', 'i', 'm', 'p', 'o', 'r', 't', '_', 'j', 's', 'o', 'n', '(', 's', 'e', 'l', 'f', '.', 's', 'e', 'r', 'i', 'a', 'l', 'i', 'z', 'e', 'r', ',', ' ', 'd', 'a', 't', 'a', ')']] := by
   decide +kernel
 
 end Tranp.C05
